@@ -16,6 +16,8 @@ def gen(tier, seed):
     yield {'conv': 'cf1d', 'ny': 4, 'nx': 2, 'leading_transposed': True, 'ydim': 'y', 'xdim': 'x', 'as_coords': False}
     yield {'conv': 'ugrid', 'ny': 2, 'nx': 3, 'tables': ['edge_node'], 'edge_transposed': True}
     yield {'conv': 'ugrid', 'ny': 2, 'nx': 2, 'tables': ['edge_node', 'edge_face'], 'transposed': True}
+    for order in (['face', 'node', 'back', 'left'], ['node', 'left', 'face', 'back'], ['back', 'face', 'node', 'left']):
+        yield {'conv': 'shoc_standard', 'ny': 2, 'nx': 3, 'coordinate_order': order}
     # tables that mention edges in a dataset without an edge dimension (no attribute, no edge table): still no edge grid
     yield {'conv': 'ugrid', 'ny': 2, 'nx': 3, 'split': [[0, 0]], 'tables': ['face_edge'], 'edge_dimension': False}
     yield {'conv': 'ugrid', 'ny': 2, 'nx': 2, 'tables': ['face_edge', 'face_face'], 'edge_dimension': False, 'start_index': 1}
@@ -28,7 +30,13 @@ def native_form(conv, kind, comps):
 
 
 def test(spec):
-    ds = datasets.build(spec)
+    ds = datasets.build({k: v for k, v in spec.items() if k != 'coordinate_order'})
+    if spec.get('coordinate_order'):
+        # the general Arakawa C convention, its coordinate names given as a mapping in the caller's order, bound to the dataset
+        from emsarray.conventions.arakawa_c import ArakawaC, ArakawaCGridKind
+        names = {'face': ('y_centre', 'x_centre'), 'left': ('y_left', 'x_left'), 'back': ('y_back', 'x_back'), 'node': ('y_grid', 'x_grid')}
+        conv = must(lambda: ArakawaC(ds, coordinate_names={ArakawaCGridKind(k): names[k] for k in spec['coordinate_order']}), 'ArakawaC(dataset, coordinate_names=...)')
+        conv.bind()
     ems = must(lambda: ds.ems, 'convention detection')
     sizes = must(lambda: dict(ems.grid_size), 'grid_size')
     kinds = must(lambda: set(ems.grid_kinds), 'grid_kinds')
